@@ -1,5 +1,6 @@
 import GixModel.Lemmas.C47TopoFinal
 import GixModel.Lemmas.C47SimpleGen
+import GixModel.Lemmas.C47OrderFinal
 /-
 C47 — Commit walks agree with git rev-list.  PROPERTY THEOREMS ONLY.
 
@@ -254,13 +255,69 @@ example : topoWalk { g := C47.sampleDag, qg := selectPQ GenTime.le, qd := select
 def DateMaxFirst (E : TopoEnv) : Prop :=
   ∀ s e s', E.qd.pop s = some (e, s') → ∀ x, x ∈ E.qd.items s → DateKey.le x.1 e.1 = true
 
-/-- NOT PROVED (stated for the record, see the config's level_note): the SEQUENCE of a walk over
-all parents is the one git's sort produces — `Spec.C47.gitTopoOrder`, the executable transcription
-of `sort_in_topological_order` with git's queue disciplines, which the harness validates against
-the sequences the git binary prints (`gitorder` operations). In particular the sequence would not
-depend on the generation numbers (commit-graph present, partial or absent) nor on how the heaps
-break ties. What IS established for the sequences: the differential tie (model = real code on
-every generated walk) and the oracle (real code = `git rev-list --date-order` / `--topo-order`). -/
+/-! ## the SEQUENCE of the topo walks is git's
+
+`Spec.C47.gitKahn` is git's `sort_in_topological_order` as Kahn's algorithm over the commits
+`git rev-list tips ^ends` selects, with git's queue disciplines (`--date-order`: priority queue by
+commit date, ties by insertion order; `--topo-order`: a stack whose initial content comes off
+newest first, equal dates in the order given); `Spec.C47.gitTopoOrder2` runs it on the executable
+selection `selOf` (proved to be `RevList`, `selOf_is_revlist`). The harness validates
+`gitTopoOrder2` against the sequences the git binary prints (`gitorder2` operations). -/
+
+/-- The sequence of a walk over all parents — either sorting, with or without ends, any generation
+numbers (commit-graph present, partial, absent or stale-but-monotone), any lawful generation queue,
+any date queue that hands out a greatest (time, earliest insertion) key first — is EXACTLY the
+sequence of git's sort over any `sel` that decides `git rev-list tips ^ends`. -/
+theorem topo_order_eq_git_kahn {E : TopoEnv} {nodes tips ends : List Nat} {sel : Nat → Bool}
+    (ctx : TCtx E nodes tips ends) (hall : E.cfg.firstParent = false) (hmax : DateMaxFirst E)
+    (hsel : ∀ x, sel x = true ↔ RevList E.g tips ends x) {n : Nat} (hn : nodes.length ≤ n) :
+    topoWalk E n tips ends
+      = .ok (gitKahn E.g sel nodes tips (E.cfg.sorting == TopoSorting.dateOrder) n) :=
+  topoWalk_order ctx
+    { all_parents := hall
+      sel_iff := fun x => (hsel x).trans (revList_iff_vis hall x)
+      date_max := hmax } hn
+
+/-- the executable selection of `gitTopoOrder2` is `git rev-list tips ^hidden` -/
+theorem selOf_is_revlist {g : Dag} {n : Nat} (hcl : Closed g (List.range n)) {tips hidden : List Nat}
+    (htips : ∀ t, t ∈ tips → t ∈ List.range n) (hhid : ∀ t, t ∈ hidden → t ∈ List.range n) (x : Nat) :
+    selOf g n tips hidden x = true ↔ RevList g tips hidden x :=
+  selOf_spec hcl htips hhid x
+
+/-- `order_eq_git` for `Sorting::DateOrder` and `Sorting::TopoOrder` with all parents, with or
+without ends: over the commits `0..n` the walk returns the executable `gitTopoOrder2`. -/
+theorem topo_order_eq_git {E : TopoEnv} {tips ends : List Nat} {n : Nat}
+    (ctx : TCtx E (List.range n) tips ends) (hall : E.cfg.firstParent = false) (hmax : DateMaxFirst E) :
+    topoWalk E n tips ends
+      = .ok (gitTopoOrder2 E.g n tips ends (E.cfg.sorting == TopoSorting.dateOrder)) :=
+  topo_order_eq_git_kahn ctx hall hmax (selOf_spec ctx.closed ctx.tips_nodes ctx.ends_nodes) (by simp)
+
+/-- Hence the SEQUENCE (not only the set) does not depend on the generation numbers nor on the
+queues: two environments over the same parents and commit times return the same list. -/
+theorem topo_order_graph_independent {E₁ E₂ : TopoEnv} {tips ends : List Nat} {n : Nat}
+    (c₁ : TCtx E₁ (List.range n) tips ends) (c₂ : TCtx E₂ (List.range n) tips ends)
+    (hp : E₁.g.parents = E₂.g.parents) (ht : E₁.g.time = E₂.g.time) (hs : E₁.cfg = E₂.cfg)
+    (hall : E₁.cfg.firstParent = false) (m₁ : DateMaxFirst E₁) (m₂ : DateMaxFirst E₂) :
+    topoWalk E₁ n tips ends = topoWalk E₂ n tips ends := by
+  have hsel := selOf_spec c₁.closed c₁.tips_nodes c₁.ends_nodes
+  rw [topo_order_eq_git_kahn c₁ hall m₁ hsel (by simp),
+    topo_order_eq_git_kahn c₂ (hs ▸ hall) m₂
+      (fun x => (hsel x).trans (revList_congr hp tips ends x)) (by simp),
+    hs, gitKahn_congr hp ht]
+
+-- non-vacuity: the reference date queue is `DateMaxFirst`, and git's sequence for the sample
+example : DateMaxFirst { g := C47.sampleDag, qg := selectPQ GenTime.le, qd := selectPQ DateKey.le,
+                         cfg := { sorting := .dateOrder, firstParent := false } } :=
+  fun s e s' h x hx => extractMax_max DateKey.le DateKey.le_total' DateKey.le_trans' s e s' h x hx
+
+example : gitTopoOrder2 C47.sampleDag 5 [3, 4] [1] true = [3, 4, 2] := by decide +kernel
+
+/-- NOT PROVED (stated for the record, see the config's level_note): the same equation for the
+OTHER transcription of git's sort, `Spec.C47.gitTopoOrder`, which keeps git's in-degree counters in
+arrays, a sorted-list date queue and its own ancestor tables. What is missing is the purely
+specification-side equation `gitTopoOrder = gitTopoOrder2` on closed histories (no model involved):
+a counter drops to 1 exactly when the last selected child is shown. Both transcriptions are
+validated against the sequences the git binary prints (`gitorder` / `gitorder2` operations). -/
 def C47_order_full : Prop :=
   ∀ (E : TopoEnv) (nodes tips ends : List Nat) (n : Nat),
     TCtx E nodes tips ends → DateMaxFirst E → nodes = List.range n → E.cfg.firstParent = false →
